@@ -124,6 +124,11 @@ impl Prop for P20 {
                 bytes_to_json(&s)
             })
             .collect();
+        // now and then the first line is the replace string itself (substituting it changes nothing - for that line)
+        let mut lines = lines;
+        if lines.len() >= 2 && rng.chance(1, 5) {
+            lines[0] = str_to_json(&the_r);
+        }
         json!({"opts": opts, "init": init, "lines": lines, "final_nl": rng.chance(3, 4)})
     }
 
